@@ -1214,7 +1214,16 @@ var skipInitPrefixes = []string{"runtime", "internal/abi", "internal/cpu", "inte
 	"github.com/davecgh", "github.com/pmezard", "gopkg.in/yaml", "github.com/Shopify", "gopkg.in/alexcesaro", "github.com/sergi", "go/", "flag", "embed", "io/ioutil", "path", "bufio",
 	"container", "context", "encoding/base64", "encoding/hex", "encoding/binary", "encoding/csv", "expvar", "debug", "text/tabwriter", "text/scanner", "log"}
 
+// initialisers inside skipped trees that are plain table set-up and are needed
+// (http.NewRequest validates the method against httpguts' token table)
+var forceInit = []string{"vendor/golang.org/x/net/http/httpguts"}
+
 func skipInit(path string) bool {
+	for _, p := range forceInit {
+		if path == p {
+			return false
+		}
+	}
 	for _, p := range skipInitPrefixes {
 		if path == p || strings.HasPrefix(path, p+"/") || (strings.HasSuffix(p, "/") && strings.HasPrefix(path, p)) {
 			return true
